@@ -333,9 +333,17 @@ func (g *Gen) HistoryIO() []E {
 	evs = append(evs, E{"op": "Insert", "c": other, "docs": []interface{}{g.jsonDoc(AStr(g.ids[0]))}})
 	evs = append(evs, E{"op": "Export", "c": src, "path": "exp.json", "audit": true})
 	names := []string{g.colls[2], g.colls[3]}
-	steps := g.r.Perm(8)
+	steps := g.r.Perm(11)
 	for _, s := range steps {
 		switch s {
+		case 8: // a new collection from a query (criteria, sometimes a sorted window)
+			g.setFocus(src)
+			evs = append(evs, E{"op": "CreateByQuery", "name": "byq", "c": src, "q": g.query(true), "audit": true})
+			evs = append(evs, E{"op": "FindAll", "c": "byq", "q": []interface{}{}})
+		case 9: // ... under a name that exists, from a source that does or does not
+			evs = append(evs, E{"op": "CreateByQuery", "name": other, "c": g.pick([]string{src, "never-created"}), "q": []interface{}{}, "audit": true})
+		case 10: // ... from a missing source
+			evs = append(evs, E{"op": "CreateByQuery", "name": "byq2", "c": "never-created", "q": []interface{}{}, "audit": true})
 		case 0:
 			evs = append(evs, E{"op": "Import", "c": names[0], "path": "exp.json"})
 			evs = append(evs, E{"op": "FindAll", "c": names[0], "q": []interface{}{}})
@@ -344,7 +352,7 @@ func (g *Gen) HistoryIO() []E {
 		case 2: // missing file
 			evs = append(evs, E{"op": "Import", "c": names[1], "path": "nope.json"})
 		case 3: // ill-formed file
-			evs = append(evs, E{"op": "PutFile", "path": "bad.json", "content": []interface{}{"bad"}})
+			evs = append(evs, E{"op": "PutFile", "path": "bad.json", "content": []interface{}{"bad", g.r.Intn(8)}})
 			evs = append(evs, E{"op": "Import", "c": names[1], "path": "bad.json"})
 		case 4: // a file with an invalid _id
 			d1 := ObjSet(g.jsonTypedDoc(AStr(g.ids[1])), "x", ANum(g.smallN[0], "f"))
